@@ -414,12 +414,14 @@ def h5rows(tg, path):
     return info, vals
 
 
-def run_inovesa(ctx, tg, out, lin, N, T, outstep, amp_deg, fmod, fs=8000.0, grid=32):
+def run_inovesa(ctx, tg, out, lin, N, T, outstep, amp_deg, fmod, fs=8000.0, grid=32, verbose=False):
     if os.path.exists(out):
         os.remove(out)
     cmd = ["timeout", "120", tg["inovesa"], "-s", str(grid), "-N", str(N), "-T", repr(T), "-n", str(outstep), "-f", repr(fs),
            "--RFPhaseModAmplitude", repr(amp_deg), "--RFPhaseModFrequency", repr(fmod), "-o", out, "-I", "0.001",
            "--gui", "false", "--LinearRF", "true" if lin else "false", "-Z", "", "--UseCSR", "false", "--tracking", ""]
+    if verbose:
+        cmd += ["--verbose", "true"]
     r = subprocess.run(cmd, capture_output=True, text=True, env=vp_build.xdg_env())
     return r.returncode, r.stdout, " ".join(cmd[2:])
 
@@ -436,6 +438,9 @@ def stage_program(ctx, dis, count):
         n = int(math.ceil(N * float(f32(T))))
         outstep = [0, 1, 2, 3, n, n + 5, 7][i % 7]
         cfgs.append((lin, N, T, outstep, rng.choice([0.01, 0.05, 0.2]), rng.choice([4000.0, 16000.0, 23000.0, 100000.0])))
+    # (family st2c12, seed F6-J) every second block of seven cadences runs with --verbose: the records must not depend on
+    # how much the run reports (an observer-guarded statement that calls getPastModulation() loses the pending records)
+    verbose_of = lambda i: (i // 7) % 2 == 1
     mtext = ""
     for i, (lin, N, T, outstep, amp, fmod) in enumerate(cfgs):
         n = int(math.ceil(N * float(f32(T))))
@@ -453,9 +458,9 @@ def stage_program(ctx, dis, count):
         md = "linear" if lin else "sinusoidal"
         n = int(math.ceil(N * float(f32(T))))
         out = os.path.join(tmp, "p%d.h5" % i)
-        rc, so, cmdline = run_inovesa(ctx, tg, out, lin, N, T, outstep, amp, fmod)
+        rc, so, cmdline = run_inovesa(ctx, tg, out, lin, N, T, outstep, amp, fmod, verbose=verbose_of(i))
         case = dict(kind="program", cmd=cmdline, LinearRF=lin, steps_per_Ts=N, rotations=T, outstep=outstep,
-                    RFPhaseModAmplitude=amp, RFPhaseModFrequency=fmod, SynchrotronFrequency=8000.0)
+                    RFPhaseModAmplitude=amp, RFPhaseModFrequency=fmod, SynchrotronFrequency=8000.0, verbose=verbose_of(i))
         if rc != 0 or not os.path.exists(out):
             ctx.violation("impl-oracle", "inovesa failed (rc=%d)" % rc, case=case, observed=so[-400:], sig=dict(kind="program", clause="run", model=md))
             continue
@@ -489,6 +494,8 @@ def stage_program(ctx, dis, count):
                 break
         ctx.case_done(("program", i), n >= 3)
         ctx.count("program:%s:outstep%s" % (md, "0" if outstep == 0 else ("1" if outstep == 1 else ("big" if outstep >= n else "mid"))))
+        if verbose_of(i):
+            ctx.count("program:verbose:outstep%s" % ("0" if outstep == 0 else ("1" if outstep == 1 else ("big" if outstep >= n else "mid"))))
     # dynamic map with an amplitude that rounding absorbs = static map, through the whole program
     for lin in (True, False):
         md = "linear" if lin else "sinusoidal"
@@ -629,7 +636,7 @@ def stage_program_interrupt(ctx, dis, nconf, nper):
         N = rng.choice([6, 7, 8, 9])
         outstep = [0, 1, 2, 3, N, N + 5, 4][ci % 7]
         cfg = dict(n=16, N=N, T=1, outstep=outstep, h5save=rng.choice([0, 1, 2]), renorm=rng.choice([-1, 0, 3]), wake=(ci % 3 == 0),
-                   dynrf=True, linrf=ci % 2, tracking=None, verbose=False)
+                   dynrf=True, linrf=ci % 2, tracking=None, verbose=(ci % 3 == 1))
         md = "linear" if cfg["linrf"] else "sinusoidal"
         if ci == 0:
             drv.run_real(tg, dict(cfg, outstep=0, h5save=0), os.path.join(wd, "warm.h5"), want_trace=False)
@@ -697,7 +704,8 @@ def stage_program_interrupt(ctx, dis, nconf, nper):
                     dis.append(dict(case=case, detail="label trace differs from the model's (lengths %d/%d)" % (len(r["labels"]) - nsetup, len(mtrace)),
                                     sig=dict(kind="program", stage="correspondence-trace")))
             ctx.case_done(("program-interrupt", ci, i, rep), distinct and applied >= 2 and i is not None and applied < N)
-            ctx.count("program-interrupt:%s" % ("outstep0" if outstep == 0 else ("every" if outstep == 1 else ("big" if outstep >= N else "mid"))))
+            ctx.count("program-interrupt:%s%s" % ("outstep0" if outstep == 0 else ("every" if outstep == 1 else ("big" if outstep >= N else "mid")),
+                                                   ":verbose" if cfg["verbose"] else ""))
         ctx.sample(dict(kind="program-interrupt", cfg={k: v for k, v in cfg.items() if k != "tracking"}, points=len(plan)))
     import shutil
     shutil.rmtree(wd, ignore_errors=True)
@@ -729,7 +737,8 @@ def run(ctx):
                 "the forwarding model. sched: random apply/flush schedules (applies <= steps, 35% exactly steps) on maps with noise and modulation; "
                 "records exact against the extracted queue machine, kick offsets bit for bit against _calcKick(record). calcmod/calckick: "
                 "tolerance stream K*2^-24*cond against the extracted arithmetic with libm sines supplied. program: inovesa runs, both RF models, "
-                "outstep in {0,1,2,3,n,n+5,7}: /RFKicks/data rows = executed steps, values against the sinusoidal formula. "
+                "outstep in {0,1,2,3,n,n+5,7}, every second block of seven cadences with --verbose: /RFKicks/data rows = executed steps, "
+                "values against the sinusoidal formula. "
                 "program-steps: steps defined by -N, by --StepsPerRevolution, by --StepsPerRevolution with a contradicting -N; rows against "
                 "A sin(2 pi f_mod k dt) with dt derived from the command line as main() does. program-interrupt: RF modulation, seven cadences, "
                 "SIGINT by the VERIF_POINT hook at chosen points: rows = rfm->apply() calls of the run's own trace = first rows of the every-step "
@@ -739,6 +748,9 @@ def run(ctx):
                  "DynamicRFKickMap::apply calls it: every entry of _offset (all nb blocks), the member values and the table-built-from-the-final-"
                  "offsets flag against the model GENERATED from RFKickMap.cpp (Gen_RFDrift), and against the hand-written model.")
     coq = vp_coq.full_check("C19", ctx, fams=("dynrf", "driver", "rf"))
+    for x in (drv.observer_report() or []):
+        ctx.notes.append("observer-guarded statement is not pure (obligation of C19_loop_observers_keep_pending_records): " + x)
+        ctx.log("not pure: " + x)
     dis = []
     cm = None
     try:
